@@ -7,7 +7,7 @@ from ..obs import tlc_obs
 from ..tla import jsonable, run_tlc
 
 _BASE = {}
-GROUP_ROW = {(0, "line"): 0, (0, "bus"): 1, (0, "switch"): 2, (0, "load"): 3, (1, "trafo"): 4, (1, "gen"): 5}
+GROUP_ROW = {(0, "line"): 0, (0, "bus"): 1, (0, "switch"): 2, (0, "load"): 3, (1, "trafo"): 4, (1, "gen"): 5, (2, "sgen"): 6}
 BUS_COLS = {"line": ["from_bus", "to_bus"], "trafo": ["hv_bus", "lv_bus"], "trafo3w": ["hv_bus", "mv_bus", "lv_bus"],
             "impedance": ["from_bus", "to_bus"], "dcline": ["from_bus", "to_bus"]}
 NODE_TABLES = ["ext_grid", "gen", "load", "sgen", "shunt", "ward", "xward", "storage", "motor", "asymmetric_load",
@@ -48,6 +48,8 @@ def build_net():
     pp.create_pwl_cost(net, 0, "sgen", [[0, 1, 1.0]])
     pp.create_group(net, ["line", "bus", "switch", "load"], [[0], [1], [1], [0, 1]], name="g0", index=0)
     pp.create_group(net, ["trafo", "gen"], [[0], [0]], name="g1", index=1)
+    net.sgen.at[0, "name"] = "sg_a"
+    pp.create_group(net, ["sgen"], [["sg_a"]], name="g2", index=2, reference_columns="name")
     ct.ConstControl(net, "load", "p_mw", element_index=[0], data_source=None, profile_name=None)
     ct.DiscreteTapControl(net, element_index=0, vm_lower_pu=0.98, vm_upper_pu=1.02, element="trafo")
     ct.DiscreteTapControl(net, element_index=0, vm_lower_pu=0.98, vm_upper_pu=1.02, side="mv", element="trafo3w")
@@ -99,6 +101,11 @@ def project(net):
             if refcol is None or (isinstance(refcol, float) and np.isnan(refcol)):
                 for m in members:
                     ref("group", rid, "element_index", et, m, "member")
+            else:       # reference-column group: a member is a value of net[et][refcol]; no row with that value = dangling
+                for m in members:
+                    hit = list(net[et].index[net[et][str(refcol)].values == m]) if et in net and str(refcol) in net[et] else []
+                    for h in (hit or [-1]):
+                        ref("group", rid, "element_index", et, h, "member")
     if "controller" in net and len(net.controller):
         for i in net.controller.index:
             rows.append(["controller", int(i)])
@@ -239,5 +246,5 @@ def run(tier, seed, replay=None):
                     for k in range(0, len(cases), max(1, len(cases) // 3))][:3],
     }
     v.assumptions = ["operation alphabet as in NetEditDef.tla!Ops; merge_nets/replace_* not in the alphabet yet",
-                     "reference-column groups are covered by C27, characteristics referenced by controllers are not projected"]
+                     "one reference-column group (sgen by name); characteristics referenced by controllers are not projected"]
     return v.finish()
